@@ -1,4 +1,5 @@
 """C08 -- strict and lenient validation agree; strict has no holes (scope: the funnel + call-site frame scan + API differential)."""
+from vxlib.common import result_line
 import os
 import re
 
@@ -141,7 +142,7 @@ def check(ctx):
             f.write(('!' if defect else '') + d.hex() + '\n')
     rc, out, err, secs = run([b, 'api', 'strictlenient', p, '1'], timeout=1800)
     ctx.t('native-enum', secs)
-    line = (out.strip().splitlines() or [''])[-1]
+    line = result_line(out)
     name = 'native/api-strict-vs-lenient'
     bound = '%d documents (%d violate a documented constraint) + every single-byte deletion and every duplicated tag of each' % (len(docs), sum(1 for d in docs if d[0]))
     if line.startswith('OK'):
@@ -160,7 +161,7 @@ def check(ctx):
     ndocs = '1000000' if thorough else '30000'
     rc, out, err, secs = run([b, 'api', 'holes', ndocs], timeout=3000)
     ctx.t('native-enum', secs)
-    line = (out.strip().splitlines() or [''])[-1]
+    line = result_line(out)
     name = 'native/api-version-holes'
     bound = 'one minimal document per version-dependent sub-element / attribute / attribute value / character-data value of the specification (budget %s candidates), relabelled to every declared version in which the tables do not list that content' % ndocs
     if line.startswith('OK'):
@@ -179,7 +180,7 @@ def check(ctx):
     nd = '3000000' if thorough else '400000'
     rc, out, err, secs = run([b, 'api', 'dupes', nd], timeout=3000)
     ctx.t('native-enum', secs)
-    line = (out.strip().splitlines() or [''])[-1]
+    line = result_line(out)
     name = 'native/api-repeated-single-occurrence'
     bound = 'for every element type reached from ElementType::ROOT (2 versions each) and every sub-element with multiplicity One/ZeroOrOne in a Sequence/Choice container: documents with the children {A, B, B} in all three orders, A the nearest sub-element listed before resp. after B (budget %s documents)' % nd
     if line.startswith('OK'):
